@@ -350,11 +350,37 @@ func TestVerif_C10(t *testing.T) {
 	defer r.Finish()
 	dir := vkit.Scratch(t)
 	bases := append(vfC10LibBases(dir), vfC10RefBases(6)...)
+	// structural monitor: the independent decoder (h5ref, the oracle of C05) reads the file
+	// after every session. Baseline = what it has to tolerate in the library's own freshly
+	// written files (the library-written bases, before any session; these deviations are
+	// findings of C05). A session must not add a decoder error, nor a deviation tag that neither
+	// the file had before the session nor any fresh file has.
+	baseline := map[string]bool{}
+	for _, b := range bases {
+		if !strings.HasPrefix(b.name, "lib/") {
+			continue
+		}
+		p := filepath.Join(dir, "baseline.h5")
+		if b.build(p) == nil {
+			if img, err := os.ReadFile(p); err == nil {
+				for _, t := range h5ref.Decode(img).DeviationTags() {
+					baseline[t] = true
+				}
+			}
+		}
+		os.Remove(p)
+	}
+	var bl []string
+	for t := range baseline {
+		bl = append(bl, t)
+	}
+	sort.Strings(bl)
+	r.Set("structural_monitor_baseline_tags(fresh library files)", bl)
 	maxSessions := 2
 	if r.Thorough() {
 		maxSessions = 3
 	}
-	r.Rule(fmt.Sprintf("base files: library-written (superblock 0/2/3 x dataset with 0/3/7/9 attributes + second dataset + group with nested dataset) and small reference-library files; histories of <= %d sessions, each OpenForWrite + <= 2 operations from {noop, upsert(a|k00|new, i32a|s40|f64x3), delete(k00|absent), overwrite data, create dataset, create group} + Close; after every session the dump must equal the previous dump with exactly the session's successful modifications applied, untouched objects must be unchanged, and a session without a successful modification must leave the file byte-identical; non-trivial = history with at least one successful modification", maxSessions))
+	r.Rule(fmt.Sprintf("base files: library-written (superblock 0/2/3 x dataset with 0/3/7/9 attributes + second dataset + group with nested dataset) and small reference-library files; histories of <= %d sessions, each OpenForWrite + <= 2 operations from {noop, upsert(a|k00|new, i32a|s40|f64x3), delete(k00|absent), overwrite data, create dataset, create group} + Close; after every session the dump must equal the previous dump with exactly the session's successful modifications applied, untouched objects must be unchanged, a session without a successful modification must leave the file byte-identical, the superblock may change only in its end-of-file address and checksum, and the independent decoder must find no error or deviation tag after the session that neither the file had before nor any freshly written library file has; non-trivial = history with at least one successful modification", maxSessions))
 	var states sync.Map
 	nstates := int64(0)
 	for _, base := range bases {
@@ -484,6 +510,32 @@ func TestVerif_C10(t *testing.T) {
 					}
 					r.Fail(fmt.Sprintf("%s/%s/file-unopenable-after-session", kind, cls), detail)
 					break
+				}
+				{
+					rb, ra := h5ref.Decode(before), h5ref.Decode(after)
+					had := map[string]bool{}
+					for _, t := range rb.DeviationTags() {
+						had[t] = true
+					}
+					cls := "noop"
+					if len(s) > 0 {
+						cls = s[len(s)-1].Op
+					}
+					for _, t := range ra.DeviationTags() {
+						if !had[t] && !baseline[t] {
+							d := map[string]any{"base": base.name, "history": vfSessionsString(h[:si+1]), "sessions": h[:si+1], "tag": t}
+							for _, dv := range ra.Deviations {
+								if dv.Tag == t {
+									d["where"], d["what"] = dv.Where, dv.Detail
+									break
+								}
+							}
+							r.Fail(fmt.Sprintf("%s/%s/session-introduces-structural-deviation/%s", kind, cls, t), d)
+						}
+					}
+					if len(ra.Errors) > 0 && len(rb.Errors) == 0 {
+						r.Fail(fmt.Sprintf("%s/%s/session-leaves-structure-undecodable", kind, cls), map[string]any{"base": base.name, "history": vfSessionsString(h[:si+1]), "sessions": h[:si+1], "decoder_errors": ra.Errors[:1]})
+					}
 				}
 				if why := vfC10Superblock(before, after); why != "" {
 					detail["superblock"] = why
